@@ -161,9 +161,16 @@ pub struct Stats {
     pub fault_end_us: i64,
     pub total_pause_us: i64,
     pub spin_suspect: u64,
+    /// deadline-triggered polls that did nothing although poll_at had asked for them
+    pub idle_repolls: u64,
 }
 
 pub struct World {
+    /// C02: follow poll_at literally - a deadline at or before `now` is served at exactly `now`
+    /// (the contract allows polling "no later than the instant returned"), and three such
+    /// polls in a row that do nothing while poll_at does not advance are a stuck connection
+    pub strict_schedule: bool,
+    idle_same_instant: [u32; 2],
     pub cfg: WorldCfg,
     pub nodes: Vec<Node>,
     pub handles: [SocketHandle; 2],
@@ -240,6 +247,8 @@ impl World {
             stream_seed: cfg.sides[i].stream_seed,
         });
         let mut w = World {
+            strict_schedule: false,
+            idle_same_instant: [0, 0],
             cfg,
             nodes,
             handles: [handles[0], handles[1]],
@@ -272,6 +281,7 @@ impl World {
                 fault_end_us: 0,
                 total_pause_us: 0,
                 spin_suspect: 0,
+                idle_repolls: 0,
             },
             events: 0,
             check_deadline_invariant: false,
@@ -573,13 +583,22 @@ impl World {
     }
 
     fn poll_node(&mut self, src: &mut Src, i: usize, ctx: &mut Ctx) -> Result<(), Fail> {
+        self.poll_node_from(src, i, ctx, false)
+    }
+
+    /// `by_deadline`: nothing but the deadline poll_at had named caused this poll.
+    fn poll_node_from(&mut self, src: &mut Src, i: usize, ctx: &mut Ctx, by_deadline: bool) -> Result<(), Fail> {
         let mut rounds = 0;
+        let mut produced = false;
         loop {
             rounds += 1;
             self.stats.polls += 1;
             let frames = self.nodes[i].poll(us(self.now_us), None);
             if self.nodes[i].dev.hard_cap_hit {
                 return Err(Fail::new("poll-unbounded-output", format!("node {} emitted more than {} frames in one poll", i, self.nodes[i].dev.hard_cap)));
+            }
+            if !frames.is_empty() {
+                produced = true;
             }
             for f in frames {
                 let max = self.cfg.sides[i].mtu;
@@ -589,6 +608,9 @@ impl World {
                 self.transmit(src, i, f, ctx);
             }
             let acted = self.app_step(src, i, ctx)?;
+            if acted {
+                produced = true;
+            }
             if !acted || rounds > 6 {
                 break;
             }
@@ -601,7 +623,27 @@ impl World {
             if t <= self.now_us {
                 // asked to be polled again right away
                 self.stats.spin_suspect += 1;
-                t = self.now_us + if self.stats.spin_suspect > 200 { 1_000 } else { 1 };
+                if by_deadline && !produced {
+                    self.stats.idle_repolls += 1;
+                    self.idle_same_instant[i] += 1;
+                } else {
+                    self.idle_same_instant[i] = 0;
+                }
+                if self.strict_schedule {
+                    if self.idle_same_instant[i] >= 3 {
+                        let st = self.sock(i).state();
+                        let q = self.sock(i).send_queue();
+                        return Err(Fail::new(
+                            format!("stuck-at-one-instant:{}", st),
+                            format!("node {} at t={}us: {} consecutive polls at the instant poll_at had named neither sent nor received a frame nor involved the application, and poll_at still returns {}us (<= now): a driver that polls exactly when poll_at says makes no progress (socket {} send_queue {})", i, self.now_us, self.idle_same_instant[i], t, st, q),
+                        ));
+                    }
+                    t = self.now_us;
+                } else {
+                    t = self.now_us + if self.stats.spin_suspect > 200 { 1_000 } else { 1 };
+                }
+            } else {
+                self.idle_same_instant[i] = 0;
             }
             let g = self.deadline_gen[i];
             self.push(t, EvKind::Deadline(i, g));
@@ -666,7 +708,7 @@ impl World {
                 }
                 EvKind::Deadline(i, _) => {
                     ctx.note(|| format!("t={} node{} deadline", self.now_us, i));
-                    self.poll_node(src, i, ctx)?;
+                    self.poll_node_from(src, i, ctx, true)?;
                 }
                 EvKind::AppWake(i) => {
                     ctx.note(|| format!("t={} app{} wakes", self.now_us, i));
@@ -772,6 +814,9 @@ pub fn label_stats(w: &World, ctx: &mut Ctx) {
     }
     if s.spin_suspect > 0 {
         ctx.label("immediate-repoll");
+    }
+    if s.idle_repolls > 0 {
+        ctx.label("idle-repoll-at-the-named-instant");
     }
     ctx.count("frames", s.frames[0] + s.frames[1]);
     ctx.count("polls", s.polls);
